@@ -26,7 +26,7 @@ static struct {
     susp U[MAXS];
     int n;
     int c02;
-    long resumes;
+    long resumes, stale_claims;
 } A;
 
 static void do_suspend(void *arg)
@@ -84,8 +84,19 @@ static void resumer_loop(int is_ult)
                 if (st == ABT_THREAD_STATE_BLOCKED && u->epoch_res < u->epoch_susp) {
                     /* claim it (no scheduling point between the test above and this store) */
                     u->epoch_res++;
-                    A.resumes++;
-                    ABT_OK(ABT_thread_resume(u->th));
+                    /* The state was sampled before the last scheduling point inside
+                     * ABT_thread_get_state: meanwhile another resumer may have resumed that
+                     * suspension and the unit may be on its way into the next one (counted, but
+                     * not BLOCKED yet).  Resuming a unit that is not blocked is refused with
+                     * ABT_ERR_THREAD: give the claim back and look again later. */
+                    int rc = ABT_thread_resume(u->th);
+                    if (rc == ABT_ERR_THREAD) {
+                        u->epoch_res--;
+                        A.stale_claims++;
+                    } else {
+                        SIM_CHECK(rc == ABT_SUCCESS, "api-error", "ABT_thread_resume returned %d", rc);
+                        A.resumes++;
+                    }
                     sim_progress();
                 }
             }
